@@ -231,6 +231,15 @@ func workerCall(c CaseB) (o outcomeB) {
 	return
 }
 
+// healthy checks after every call that the interpreter still works: an argument count error is still signalled as
+// such and a plain call still returns its value.
+func healthy() bool {
+	scope := slip.NewScope()
+	bad := ev.Eval(scope, "(car)")
+	good := ev.Eval(scope, "(cadr (list 1 (make-hash-table)))")
+	return bad.Kind == ev.Condition && strings.HasPrefix(bad.Msg, "Too few arguments to car") && good.Kind == ev.Value
+}
+
 func runWorker() {
 	var jobs []CaseB
 	b, err := os.ReadFile(os.Getenv("C04_JOBS"))
@@ -255,6 +264,12 @@ func runWorker() {
 		o := workerCall(c)
 		jb, _ := json.Marshal(o)
 		fmt.Fprintf(out, "E %d %s\n", i, jb)
+		if !healthy() {
+			// the call damaged interpreter-global state (later outcomes would be meaningless): tell the parent, which
+			// continues with a fresh worker
+			fmt.Fprintf(out, "X %d\n", i)
+			break
+		}
 	}
 	out.Close()
 	os.Exit(0)
